@@ -190,9 +190,12 @@ def text_compatible(a, b):
 
 
 class Matcher:
-    def __init__(self, ctx, cmpn):
+    def __init__(self, ctx, cmpn, side_a='parse', side_b='compose', expand_b=None):
         self.ctx = ctx
         self.c = cmpn
+        self.side_a = side_a
+        self.side_b = side_b
+        self.expand_b = expand_b        # callable(El) -> elements | None, for a specification side
 
     def prep(self, els, side):
         out = []
@@ -214,7 +217,7 @@ class Matcher:
             if e.kind in ('alt', 'tryalt'):
                 out.extend(self.hoist(e))
             out.append(e)
-        if side == 'compose':
+        if side in ('compose', 'spec'):
             out = self.absorb_repeat(out)
         return out
 
@@ -248,8 +251,8 @@ class Matcher:
         return out
 
     def seq(self, A, B, where):
-        A = self.prep(list(A), 'parse')
-        B = self.prep(list(B), 'compose')
+        A = self.prep(list(A), self.side_a)
+        B = self.prep(list(B), self.side_b)
         i = j = 0
         guard = 0
         while i < len(A) or j < len(B):
@@ -272,6 +275,18 @@ class Matcher:
                         i += 1
                         j += 2
                         continue
+                # the same split on the A side (composer code vs a specification that names one integer)
+                if a.kind == 'u' and b.kind == 'u' and a.w != b.w and i + 1 < len(A) and A[i + 1].kind == 'u' and \
+                        isinstance(a.w, int) and isinstance(b.w, int) and isinstance(A[i + 1].w, int) and \
+                        b.w == a.w + A[i + 1].w and order_tag(a.order, 2) == 'be' and order_tag(b.order, 2) == 'be':
+                    x = bit_split([a.val, A[i + 1].val], [a.w, A[i + 1].w])
+                    if x is not None:
+                        merged = El('u', w=b.w, order=b.order, val=x, op=a.op)
+                        self.c.pairs.append((merged, b))
+                        self.c.expanded[id(a)] = [merged]
+                        i += 2
+                        j += 1
+                        continue
                 r = self.match(a, b, where)
                 if r:
                     self.c.pairs.append((a, b))
@@ -279,14 +294,19 @@ class Matcher:
                     j += 1
                     continue
                 if a.kind == 'nested':
-                    ex = expand_nested(a, 'parse', self.ctx, self.c)
+                    ex = expand_nested(a, self.side_a, self.ctx, self.c)
                     if ex is not None and not (len(ex) == 1 and ex[0].kind == 'nested' and ex[0].cls == a.cls):
-                        A[i:i + 1] = self.prep(ex, 'parse')
+                        A[i:i + 1] = self.prep(ex, self.side_a)
                         continue
                 if b.kind == 'nested':
-                    ex = expand_nested(b, 'compose', self.ctx, self.c)
+                    if self.expand_b is not None:
+                        ex = self.expand_b(b)
+                        if ex is not None:
+                            self.c.expanded[id(b)] = ex
+                    else:
+                        ex = expand_nested(b, self.side_b, self.ctx, self.c)
                     if ex is not None and not (len(ex) == 1 and ex[0].kind == 'nested' and ex[0].cls == b.cls):
-                        B[j:j + 1] = self.prep(ex, 'compose')
+                        B[j:j + 1] = self.prep(ex, self.side_b)
                         continue
                 # an empty alternative on one side only
                 if a.kind == 'alt' and b.kind != 'alt' and (not a.a or not a.b):
@@ -295,7 +315,7 @@ class Matcher:
                 i += 1
                 j += 1
                 continue
-            if a is not None and a.kind == 'raw' and self.empty_body_ok(a):
+            if a is not None and a.kind == 'raw' and (a.extra.get('must_be_empty') or self.empty_body_ok(a)):
                 i += 1
                 continue
             if a is not None:
@@ -361,6 +381,18 @@ class Matcher:
             else:
                 self.c.unknown.append('%s: array item width not static' % where)
             return True
+        if ka == 'nested' and self.side_b == 'spec':
+            names = b.extra.get('names') or []
+            ac = a.cls.cls if isinstance(a.cls, ClassV) else a.cls
+            an = ac.name if isinstance(ac, ClassInfo) else None
+            if not isinstance(ac, ClassInfo):
+                self.c.unknown.append('%s: class of the composed value not statically known (specification says %s)' % (where, names))
+                return True
+            if an in names:
+                return True
+            if isinstance(ac, ClassInfo) and any(isinstance(x, ClassInfo) and x.name in names for x in ac.mro):
+                return True
+            return False
         if ka == 'nested':
             ok = class_compatible(a.cls, b.cls, self.ctx)
             if ok is False:
@@ -386,7 +418,7 @@ class Matcher:
             best = None
             for (pa, pb) in (((a.a, b.a), (a.b, b.b)), ((a.a, b.b), (a.b, b.a))):
                 sub = Comparison(self.c.cls)
-                m = Matcher(self.ctx, sub)
+                m = Matcher(self.ctx, sub, self.side_a, self.side_b, self.expand_b)
                 m.seq(pa[0], pa[1], where + '/alt')
                 m.seq(pb[0], pb[1], where + '/alt')
                 if best is None or len(sub.diffs) < len(best.diffs):
